@@ -149,6 +149,59 @@ def parts(ctx):
             'Pipe: n = 1..8 (quick) / 1..25 (thorough) random stages assembled five ways')
 
 
+# ---------------------------------------------------------------- the same runs seen by C01 / C09 / C12
+# (C08 and C14 need nothing: the new single-source operators are in opSpecs, so `ops` / `chains` / `cancel` run them.)
+
+def parts_C01(ctx):
+    """C01.py: grammar + refused notifications of creation operators (alone and under chains) and of the five Pipe assemblies"""
+    for kind, what in (('create', 'C01 grammar/drops of creation operators'), ('pipes', 'C01 grammar through Pipe/PipeN/PipeOp/PipeOpN')):
+        rows = R.run_kind(ctx, kind)
+        R.compare(ctx, rows, proj_grammar, what, oracle=oracle_grammar, nontrivial=lambda c, gd: gd.get('trace', '-') != '-')
+
+
+def _proj_ctx(d):
+    return (flag(d), ctx_of(d.get('trace')))
+
+
+def oracle_ctx_more(case, gd):
+    """every delivered context carries the subscription marker and is not nil — except where an operator of the case is
+    documented / listed otherwise: ContextReset (replaces the context by definition), Max (known finding: nil on empty),
+    DefaultIfEmpty (known finding: Background)"""
+    names = set(re.findall(r'(?:^|[=|])([A-Za-z]+)/', field(case, 'down') or '')) | set(re.findall(r'(?:^|[=|])([A-Za-z]+)/', field(case, 'ops') or ''))
+    if field(case, 'op'):
+        names.add(field(case, 'op'))
+    sub = field(case, 'sub')
+    subm = sub.split('.')[0] if sub and sub != '-' else None
+    for cx in ctx_of(gd.get('trace')):
+        if cx == 'nil':
+            if 'Max' in names:
+                continue
+            return 'nil context delivered'
+        if subm and subm not in cx.split('.'):
+            if names & {'ContextReset', 'DefaultIfEmpty', 'DefaultIfEmptyWithContext'}:
+                continue
+            return 'subscription marker lost'
+    return None
+
+
+def parts_C09(ctx):
+    """C09.py: marker lists of every delivered notification for the context operators, the creation operators and Pipe"""
+    for kind, what in (('opsmore', 'C09 context markers: context operators and the other new single-source operators'),
+                       ('create', 'C09 context markers: creation operators deliver the subscription context'),
+                       ('pipes', 'C09 context markers through Pipe')):
+        rows = R.run_kind(ctx, kind)
+        R.compare(ctx, rows, _proj_ctx, what, oracle=oracle_ctx_more, nontrivial=lambda c, gd: gd.get('trace', '-') != '-')
+
+
+def parts_C12(ctx):
+    """C12.py: a creation operator subscribed again (sequentially, and four times concurrently) delivers the same trace;
+    Start's callback / Defer's factory / Iif's predicate run once per subscription (laziness: never at construction)"""
+    rows = R.run_kind(ctx, 'create')
+    R.compare(ctx, rows, lambda d: (flag(d), d.get('trace'), d.get('t2'), d.get('calls')), 'C12 re-subscription of creation operators',
+              nontrivial=lambda c, gd: gd.get('trace', '-') != '-')
+    run_oracle(ctx, rows, oracle_create, 'C12 creation operators')
+
+
 # ---------------------------------------------------------------- when the table theorems no longer check
 
 def _expected_delegation():
@@ -211,6 +264,10 @@ def search(ctx, out):
 
 def check(ctx):
     rule = parts(ctx)
+    if os.environ.get('C04_MORE_ALL'):   # exercise the C01/C09/C12 views as well (same kinds, other projections)
+        parts_C01(ctx)
+        parts_C09(ctx)
+        parts_C12(ctx)
     return dict(rule=rule, search=search,
                 assumptions=['float functions (Round, Abs, Floor, Ceil, Trunc, the division of Average) are uninterpreted in Lean; the harness compares each result with Go\'s own math function on the same item',
                              'TimeInterval / Timestamp: only the shape is modelled (value preserved, one output per input, non-negative time field)'])
